@@ -58,6 +58,30 @@ def step(cls, k=3, nflav=3, **sel):
                         return msg
     if n == 0:
         return "no ill-formed request generated (vacuous)"
+    # a pre-state outside the decoded family but reachable in one step: the bond under a bond-centred descriptor has been removed (the descriptor
+    # stays, by design); a descriptor / stereo change centred on that now absent bond is an ill-formed request
+    for (kind_, atoms_, par_) in spec.get("bstereo", []):
+        g = gl.build(spec)
+        i, j = atoms_[2], atoms_[3]
+        try:
+            g.remove_bond(i, j)
+        except Exception:
+            continue
+        s0 = gl.snap(g)
+        reqs = [("set_bond_stereo", lambda g: g.set_bond_stereo(gl.mk_desc((kind_, atoms_[:2][::-1] + atoms_[2:], par_))))]
+        if cname == "SCRG":
+            reqs.append(("set_bond_stereo_change", lambda g: g.set_bond_stereo_change(formed=gl.mk_desc((kind_, atoms_, par_)))))
+        for rname, req in reqs:
+            raised = None
+            try:
+                req(g)
+            except Exception as e:
+                raised = e
+            d = gl.diff(s0, gl.snap(g))
+            if raised is None:
+                return f"after remove_bond({i},{j}) under a bond descriptor: {rname} centred on the absent bond was accepted" + (f" and changed: {d}" if d else "")
+            if d:
+                return f"after remove_bond({i},{j}) under a bond descriptor: rejected {rname} ({type(raised).__name__}) changed a view: {d}"
     return None
 
 
